@@ -94,9 +94,9 @@ At(g) == (g - 1) * Grid
 \* the obligations on the functions, for one day, over all grid instants
 DayOK(cfg, date) ==
     LET plan == Plan(cfg, date)
-        V == [g \in 1..G |-> ValueP(cfg, plan, At(g))]
-        N == [g \in 1..G |-> NextChangeP(cfg, plan, At(g))]
-        X == [g \in 1..G |-> ExactNextP(cfg, plan, At(g))]
+        V == TLCEval([g \in 1..G |-> ValueP(cfg, plan, At(g))])        \* TLCEval: tabulate once
+        N == TLCEval([g \in 1..G |-> NextChangeP(cfg, plan, At(g))])
+        X == TLCEval([g \in 1..G |-> ExactNextP(cfg, plan, At(g))])
     IN  \A g \in 1..G :
           /\ V[g] # NULL /\ (V[g] = NOVAL <=> ~InPeriod(cfg, date))
           /\ At(g) < N[g] /\ LooseNextP(cfg, plan, At(g)) <= N[g] /\ N[g] <= X[g] /\ X[g] <= Midnight
@@ -112,8 +112,10 @@ M_NoChangeBeforeNext == ph = 2 => NoChangeBeforeNext(Cfg)
 \* grid form of the same: no grid instant of [now, deadline) on the current day shows a different value
 M_NoChangeOnGrid ==
     (ph = 2 /\ deadline # NoDeadline) =>
-        \A g \in 1..G : (now[2] <= At(g) /\ (deadline[1] # now[1] \/ At(g) < deadline[2]))
-                          => Value(Cfg, now[1], At(g)) = Value(Cfg, now[1], now[2])
+        LET cfg == Cfg
+            plan == Plan(cfg, now[1])
+            v == ValueP(cfg, plan, now[2])
+        IN  \A g \in 1..G : (now[2] <= At(g) /\ (deadline[1] # now[1] \/ At(g) < deadline[2])) => ValueP(cfg, plan, At(g)) = v
 M_TimeAdvances == [][(ph = 2 /\ ph' = 2) => Later(now', now)]_vars
 
 ----------------------------------------------------------------------------
